@@ -1981,6 +1981,7 @@ func (r *Raft) installSnapshot(rpc RPC, req *InstallSnapshotRequest) {
 	r.setLastApplied(req.LastLogIndex)
 
 	// Update the last stable snapshot info
+	prevSnapIdx, prevSnapTerm := r.getLastSnapshot()
 	r.setLastSnapshot(req.LastLogIndex, req.LastLogTerm)
 
 	// Restore the peer set
@@ -1998,13 +1999,19 @@ func (r *Raft) installSnapshot(rpc RPC, req *InstallSnapshotRequest) {
 		}
 	} else {
 		// Entries from the snapshot index on only agree with the snapshot if the
-		// log holds the snapshot's last entry with the same term. Otherwise they
-		// are a stale tail: drop it, or the leader's next AppendEntries (previous
-		// entry = snapshot index) is checked against that tail, rejected, and
-		// the same snapshot is sent again for ever.
+		// log holds the snapshot's last entry with the same term, or if they
+		// already followed this very snapshot (the same snapshot delivered
+		// again: its last entry was compacted away). Otherwise they are a stale
+		// tail: drop it, or the leader's next AppendEntries (previous entry =
+		// snapshot index) is checked against that tail, rejected, and the same
+		// snapshot is sent again for ever.
 		if lastLogIdx, _ := r.getLastLog(); lastLogIdx >= req.LastLogIndex {
 			var lastIncluded Log
-			if err := r.logs.GetLog(req.LastLogIndex, &lastIncluded); err != nil || lastIncluded.Term != req.LastLogTerm {
+			agrees := prevSnapIdx == req.LastLogIndex && prevSnapTerm == req.LastLogTerm
+			if err := r.logs.GetLog(req.LastLogIndex, &lastIncluded); err == nil {
+				agrees = lastIncluded.Term == req.LastLogTerm
+			}
+			if !agrees {
 				if err := r.logs.DeleteRange(req.LastLogIndex, lastLogIdx); err != nil {
 					r.logger.Error("failed to clear log suffix", "error", err)
 				} else {
